@@ -21,6 +21,8 @@ import (
 
 var streamDownErr = status.Error(codes.Unavailable, "stream is down")
 
+var errChannelClosed = fmt.Errorf("channel closed")
+
 type request struct {
 	ctx  context.Context
 	msg  *Message
@@ -147,11 +149,16 @@ func (c *channel) enqueue(req request, responseChan chan<- response, streaming b
 		c.responseRouters[req.msg.Metadata.MessageID] = responseRouter{responseChan, streaming}
 		c.responseMut.Unlock()
 	}
+	// respond with error if the node is closed
+	if c.parentCtx.Err() != nil {
+		c.routeResponse(req.msg.Metadata.MessageID, response{nid: c.node.ID(), err: errChannelClosed})
+		return
+	}
 	// either enqueue the request on the sendQ or respond
 	// with error if the node is closed
 	select {
 	case <-c.parentCtx.Done():
-		c.routeResponse(req.msg.Metadata.MessageID, response{nid: c.node.ID(), err: fmt.Errorf("channel closed")})
+		c.routeResponse(req.msg.Metadata.MessageID, response{nid: c.node.ID(), err: errChannelClosed})
 		return
 	case <-req.ctx.Done():
 		// the caller's context ended while waiting for the sender to accept the request,
@@ -163,6 +170,24 @@ func (c *channel) enqueue(req request, responseChan chan<- response, streaming b
 		}
 		return
 	case c.sendQ <- req:
+		// the sender may have terminated after the request entered a buffered queue
+		if c.parentCtx.Err() != nil {
+			c.failQueued()
+		}
+	}
+}
+
+// failQueued answers all requests waiting in the send queue with an error.
+// It is called once the node has been closed: by the sender before it terminates,
+// and by a caller that finds the node closed right after queueing its request.
+func (c *channel) failQueued() {
+	for {
+		select {
+		case req := <-c.sendQ:
+			c.routeResponse(req.msg.Metadata.MessageID, response{nid: c.node.ID(), err: errChannelClosed})
+		default:
+			return
+		}
 	}
 }
 
@@ -238,6 +263,7 @@ func (c *channel) sender() {
 	for {
 		select {
 		case <-c.parentCtx.Done():
+			c.failQueued()
 			return
 		case req = <-c.sendQ:
 		}
